@@ -5,6 +5,22 @@
 // by hand after RFC 9000 17.2 (long header: first byte, version, DCID len+DCID, SCID len+SCID, then the
 // type-specific part) with a symbolic version field; the expected Version Negotiation bytes are an
 // independent transcription of RFC 9000 17.2.1.
+//
+// RECORD (what was tried, what happened; 16-core machine shared by 8 jobs, 16 GB cap per harness):
+//   * vq_c11_version_negotiator_client_never_negotiates (client endpoint: real decoder + on_packet):
+//     discharged, 97 s.  So building the packet / publisher arguments under Kani is feasible.
+//   * server side, one harness with symbolic packet kind (5 decoders) and symbolic "queue already full"
+//     prefix: no result in 1500 s.
+//   * server side split by kind (the three functions below, queue capacity 1): `on_initial` died after
+//     547 s without reporting a single check (out of memory); `on_other_packets` (1351 s) and
+//     `at_capacity` (798 s) ended with CBMC status "Error" on ~420 checks and every named obligation
+//     "undetermined".  What is expensive is not the decoder but `Transmission::new`: a 1200-byte array
+//     filled through EncoderBuffer and moved into a `VecDeque<Transmission>` (1224-byte elements).
+//   The server-side contract is therefore NOT DECIDED by this framework.  The three harness functions
+//   are kept (not registered: their `//@ harness` lines are disabled, `#[kani::proof]` commented out) so
+//   that the contract text is on file: VN queued iff unsupported-version Initial with payload_len >= 1200
+//   and the queue not full; never for Version Negotiation / 0-RTT / Handshake / short packets; Err
+//   exactly for unsupported-version Initial / 0-RTT; reply bytes per RFC 9000 17.2.1.
 use super::*;
 use s2n_codec::DecoderBufferMut;
 use s2n_quic_core::{connection::id::ConnectionInfo, inet::SocketAddress, path::RemoteAddress};
@@ -91,11 +107,11 @@ fn path() -> RemoteAddress {
 
 // First version: one harness with a symbolic packet kind (5 decoders) and a symbolic "queue already
 // full" prefix: no result in 1500 s.  Split by kind; the at-capacity case is its own harness.
-//@ harness props=C11 tier=thorough level=bounded timeout=1800 bound="Initial packet with fixed 3/4-byte connection ids; version and datagram length symbolic; empty queue of capacity 1"
-//@ fn Negotiator::on_packet
-//@ fn Transmission::new
-#[kani::proof]
-#[kani::unwind(66)]
+//@-not-registered harness props=C11 tier=thorough level=bounded timeout=1800 bound="Initial packet with fixed 3/4-byte connection ids; version and datagram length symbolic; empty queue of capacity 1"
+//@-not-registered fn Negotiator::on_packet
+//@-not-registered fn Transmission::new
+// #[kani::proof] #[kani::unwind(66)]   (not registered: see the record at the top of this file)
+#[allow(dead_code)]
 fn vq_c11_version_negotiator_on_initial() {
     let mut n = ServerNegotiator::new(1);
     let version: u32 = kani::any();
@@ -155,10 +171,10 @@ fn server_contract(n: &mut ServerNegotiator, kind: Kind, version: u32, payload_l
     core::mem::forget(publisher);
 }
 
-//@ harness props=C11 tier=thorough level=bounded timeout=1800 bound="0-RTT / Handshake / Version Negotiation / short packets with fixed connection ids; version and datagram length symbolic"
-//@ fn Negotiator::on_packet
-#[kani::proof]
-#[kani::unwind(66)]
+//@-not-registered harness props=C11 tier=thorough level=bounded timeout=1800 bound="0-RTT / Handshake / Version Negotiation / short packets with fixed connection ids; version and datagram length symbolic"
+//@-not-registered fn Negotiator::on_packet
+// #[kani::proof] #[kani::unwind(66)]   (not registered: see the record at the top of this file)
+#[allow(dead_code)]
 fn vq_c11_version_negotiator_on_other_packets() {
     let mut n = ServerNegotiator::new(1);
     let kind = match kani::any::<u8>() % 4 {
@@ -179,10 +195,10 @@ fn vq_c11_version_negotiator_on_other_packets() {
     kani::cover!(kind == Kind::Handshake && version != 1, "reach:handshake");
 }
 
-//@ harness props=C11 tier=thorough level=bounded timeout=1800 bound="two Initial packets of unsupported versions, queue capacity 1"
-//@ fn Negotiator::on_packet
-#[kani::proof]
-#[kani::unwind(66)]
+//@-not-registered harness props=C11 tier=thorough level=bounded timeout=1800 bound="two Initial packets of unsupported versions, queue capacity 1"
+//@-not-registered fn Negotiator::on_packet
+// #[kani::proof] #[kani::unwind(66)]   (not registered: see the record at the top of this file)
+#[allow(dead_code)]
 fn vq_c11_version_negotiator_at_capacity() {
     let mut n = ServerNegotiator::new(1);
     server_contract(&mut n, Kind::Initial, 0x0a0a0a0a, 1200, false);
